@@ -145,6 +145,54 @@ def find_cases(rnd, n):
     return out
 
 
+def cmp_cases(rnd, n):
+    """comparison functions on operands longer than the TLC arena: a late difference, case pairs, a missing terminator with the operand
+    flush against the end of the arena (reading one element more faults)"""
+    out = []
+    for fn, w, hass in (("strcmp_s", 1, 0), ("strcasecmp_s", 1, 0), ("wcscmp_s", 4, 1), ("wcsncmp_s", 4, 1), ("wcsicmp_s", 4, 1)):
+        for _ in range(n):
+            L = rnd.randint(3, 12)
+            base = [rnd.choice([97, 65, 98, 66]) for _ in range(L)]
+            other = list(base)
+            if rnd.random() < 0.5:
+                for j in range(L):
+                    if rnd.random() < 0.3:
+                        other[j] ^= 32                      # the other case
+            r = rnd.random()
+            if r < 0.35:
+                other[rnd.randrange(max(0, L - 3), L)] = rnd.choice([99, 67, 96, 95])    # a difference near the end (incl. characters between the two cases)
+            elif r < 0.5:
+                other = other[:rnd.randint(1, L)]
+            elif r < 0.6:
+                other = other + [rnd.choice([97, 65])]
+            dterm = rnd.random() < 0.6
+            sterm = rnd.random() < 0.7 or not hass
+            dlast = rnd.random() < 0.5                      # which operand ends at the end of the arena
+            dmax = (len(base) + rnd.choice([1, 1, 3])) if dterm else rnd.choice([len(base), len(base), max(1, len(base) - 2)])
+            if hass:
+                slen = (len(other) + rnd.choice([1, 1, 2])) if sterm else rnd.choice([len(other), max(1, len(other) - 1)])
+            else:
+                slen = 0
+            dcells = max(dmax, len(base) + (1 if dterm else 0))
+            # without a length of its own the source is read up to its terminator or for dmax elements
+            scells = max(slen, len(other) + (1 if sterm else 0)) if hass else max(len(other) + 1, 0)
+            first, second = (("s", scells), ("d", dcells)) if dlast else (("d", dcells), ("s", scells))
+            a = blank(1)
+            pos = {}
+            for name, cells in (first, second):
+                pos[name] = len(a) + 1
+                seq, term = (base, dterm) if name == "d" else (other, sterm)
+                blk = list(seq) + ([0] if term else [])
+                while len(blk) < cells:
+                    blk.append(G(len(a) + len(blk)))
+                a += blk
+                if name == first[0]:
+                    a += blank(2)
+            cnt = rnd.choice([1, max(1, L - 1), L, L + 2]) if fn == "wcsncmp_s" else 0
+            out.append(case(fn, w, pos["d"], dmax, pos["s"], slen, a, n=cnt))
+    return out
+
+
 def password_cases(rnd, n):
     """strispassword_s needs strings of 6..31 characters: beyond the TLC arena, seeded here"""
     out = []
@@ -216,12 +264,13 @@ def fill_cases(rnd, per_fn):
 
 
 def cases(family, seed, tier):
-    rnd = random.Random(seed * 7919 + hash(family) % 1000)
+    import zlib
+    rnd = random.Random(seed * 7919 + zlib.crc32(family.encode()) % 1000)     # (not hash(): that differs from process to process)
     k = 60 if tier == "quick" else 600
     if family == "strcopy":
         return copy_cases(rnd, k) + cat_cases(rnd, k)
-    if family == "query2":
-        return find_cases(rnd, k * 5)
+    if family in ("query2", "query2_small"):
+        return find_cases(rnd, k * 5) + cmp_cases(rnd, k * 5)
     if family == "query1":
         return password_cases(rnd, k * 10)
     if family == "strfld":
